@@ -194,6 +194,14 @@ func runPubScenario(sc J) []stepResult {
 				if header != "" {
 					req.Header.Set(hname, header)
 				}
+				// the header the classification must NOT look at (Content-Type of a GET, Accept of a POST)
+				if oh, ok := step["otherHeader"].(string); ok && oh != "" {
+					if hname == "Accept" {
+						req.Header.Set("Content-Type", oh)
+					} else {
+						req.Header.Set("Accept", oh)
+					}
+				}
 				if entry == "postInbox" || entry == "postOutbox" {
 					min["body"] = classifyBody(raw, readFails)
 				}
